@@ -9,7 +9,7 @@ class C04(TreeCheck):
     prop = "C04"
     rule_text = (
         "programs from g_contain (1-6+ faulty tasks - raising incl. SystemExit/KeyboardInterrupt, unpicklable or struct.error arguments, unpicklable "
-        "results, slow pickling, raising done-callbacks - at every position among 5-40 good ones; optionally more unsendable tasks in a row than the "
+        "results, exception instances that cannot be pickled, slow pickling, raising done-callbacks - at every position among 5-40 good ones; family too_large (every 5th base): arguments that pickle fine and are refused by send_bytes (driver option send_limit raises struct.error in the feeder thread above 2 MB), up to more of them than the call queue has slots; optionally more unsendable tasks in a row than the "
         "call queue has slots; 1-4 workers; plain and reusable) in profile mode, with a delay (D) in the feeder error path / dispatch / completion, "
         "and jitter (Z). Non-trivial = at least one task-level failure was delivered; distinct = (program shape, mode, injection function, set of "
         "failure classes delivered)."
@@ -20,7 +20,11 @@ class C04(TreeCheck):
         n = 14 if tier == "quick" else 120
         # stratified: every flavour of pickling error in turn, every other base with chained done-callbacks
         E = programs.PICKLE_EXCS
-        return [dict(zip(("program", "meta"), programs.g_contain(rng, force_pickle_exc=E[i % len(E)], chain=(i % 2 == 0))), config={}) for i in range(n)]
+        # every 5th base: family too_large (tasks that pickle fine and are refused by send_bytes, through the driver option send_limit)
+        return [
+            dict(zip(("program", "meta"), programs.g_contain(rng, force_pickle_exc=E[i % len(E)], chain=(i % 2 == 0), too_large=(i % 5 == 3))), config=({"send_limit": programs.SEND_LIMIT} if i % 5 == 3 else {}))
+            for i in range(n)
+        ]
 
     def derive(self, base, F, rng, tier):
         quick = tier == "quick"
